@@ -100,6 +100,7 @@ type lockAnalysis struct {
 	edges    []lockEdge
 	syncCall map[*ssa.Function][]syncSite // closures run synchronously at a call site
 	acquired map[*ssa.Function][]lockAcq
+	trans    map[*ssa.Function]map[string]bool // mayAcquire, memoised
 }
 
 type lockAcq struct {
@@ -709,13 +710,9 @@ func ruleL2(c *Ctx) {
 // held at the site to every lock the callee may acquire transitively (so that
 // exported entry points, which are analysed with an empty entry set, still
 // contribute the order in which their callers nest them).
-func (la *lockAnalysis) transitiveEdges() []lockEdge {
-	acq := map[*ssa.Function]map[string]bool{}
-	var fns []*ssa.Function
-	for f := range la.scope {
-		fns = append(fns, f)
-	}
-	sort.Slice(fns, func(i, j int) bool { return fns[i].String() < fns[j].String() })
+// mayAcquire: for every function in scope, the names of the locks it may acquire, itself or through
+// its callees (go statements excluded).
+func (la *lockAnalysis) mayAcquire() (map[*ssa.Function]map[string]bool, func(ci ssa.CallInstruction) ([]*ssa.Function, string)) {
 	callees := func(ci ssa.CallInstruction) (out []*ssa.Function, extra string) {
 		c := ci.Common()
 		if g := la.m.calleeCHA(c); g != nil {
@@ -736,6 +733,15 @@ func (la *lockAnalysis) transitiveEdges() []lockEdge {
 		}
 		return
 	}
+	if la.trans != nil {
+		return la.trans, callees
+	}
+	acq := map[*ssa.Function]map[string]bool{}
+	var fns []*ssa.Function
+	for f := range la.scope {
+		fns = append(fns, f)
+	}
+	sort.Slice(fns, func(i, j int) bool { return fns[i].String() < fns[j].String() })
 	for _, f := range fns {
 		acq[f] = map[string]bool{}
 		for _, a := range la.acquired[f] {
@@ -765,6 +771,17 @@ func (la *lockAnalysis) transitiveEdges() []lockEdge {
 			}
 		}
 	}
+	la.trans = acq
+	return acq, callees
+}
+
+func (la *lockAnalysis) transitiveEdges() []lockEdge {
+	acq, callees := la.mayAcquire()
+	var fns []*ssa.Function
+	for f := range la.scope {
+		fns = append(fns, f)
+	}
+	sort.Slice(fns, func(i, j int) bool { return fns[i].String() < fns[j].String() })
 	var out []lockEdge
 	for _, f := range fns {
 		for _, ci := range calls(f) {
